@@ -20,6 +20,7 @@ Add(st) == /\ N < MaxStmts /\ st.k \in Kinds /\ prog' = Append(prog, st)
 Next == \/ \E l \in {"0", "m7", "i31", "i63"} : Add(St("ilit", "", 0, 0, l))
         \/ \E s \in {"ab", "q\"t"} : Add(St("slit", "", 0, 0, s))
         \/ Add(St("flit", "", 3, 1, "")) \/ Add(St("blit", "", 0, 0, "True")) \/ Add(St("none", "", 0, 0, "None"))
+        \/ Add(St("erec", "", 0, 0, ""))                       \* the empty record {=}, alone and as a field of a record
         \/ \E a \in Defined, b \in Defined, op \in Ops : Add(St("bin", op, a, b, ""))
         \/ \E a \in Defined, f \in Funs : Add(St("call", f, a, 0, ""))
         \/ \E a \in Defined, b \in Defined : \/ Add(St("lmk", "", a, b, "")) \/ Add(St("lget", "", a, b, ""))
@@ -29,6 +30,9 @@ Next == \/ \E l \in {"0", "m7", "i31", "i63"} : Add(St("ilit", "", 0, 0, l))
         \/ \E a \in Defined : \/ Add(St("print", "", a, 0, "")) \/ Add(St("loop", "", a, 0, "")) \/ Add(St("assert", "", a, 0, ""))
                               \/ Add(St("neg", "", a, 0, "")) \/ Add(St("mut", "", a, 0, "")) \/ Add(St("cls", "", a, 0, ""))
                               \/ Add(St("match", "", a, 0, "")) \/ Add(St("ifexpr", "", a, 0, ""))
+                              \/ Add(St("matchd", "", a, 0, "")) \/ Add(St("matchd2", "", a, 0, ""))   \* arms with default parameters
+                              \/ Add(St("recn", "", a, 0, ""))      \* a record with a nested empty record, inside a function
+                              \/ Add(St("lamd", "", a, 0, ""))      \* a lambda with a default parameter
 Spec == Init /\ [][Next]_prog
 Emit == N > 0 => PrintT(<<"S", ToJson([prog |-> prog])>>)
 =============================================================================
